@@ -23,6 +23,20 @@ register("C18", "proof",
          TB + "zlib and JSON inverses are hypotheses; domain = JSON values.",
          "Lean 4 proof (induction) + model/code correspondence", "DESIGN.md §4 C18")
 
+register("C14", "proof",
+         "Lean theorems over a model of mod_daemon.py's read loop and try/except/finally (one_line_per_request, output_count, faults_do_not_stop, stops_on_exit, fault_answers, respond_total) hold for "
+         "every finite sequence of input lines and every (total) request handler; the model is tied to the real daemon process by a correspondence run: scripted stdin histories over the "
+         "property's fault alphabet, the real stdout must consist of exactly the answers the model names, in order, each base64(JSON), compile answers equal to an in-process compile_code.",
+         TB + "the handler (decode, compile_code, encode) is a total uninterpreted function in the model; CPython's stdin line iteration and print are the environment.",
+         "Lean 4 proof (induction over request histories) + model/daemon-process correspondence", "DESIGN.md §4 C14")
+
+register("C15", "proof",
+         "Lean theorems about a replica of the directive scanner in compile_code (scan_frame, scan_last_wins, scan_known_only, tag_spellings, dash_underscore_alike, scan_code_line_inert, "
+         "scan_idempotent, scan_eq_api) hold for every source text and every caller option vector; the replica is tied to the code by regeneration of the option fields and by a correspondence run "
+         "on structured and wild texts (the options object the real compile_code hands to the compiler), and whole-compile equality directive = API is evaluated on the real code.",
+         TB + "PV.PyStr character classes are CPython's (checked against the running interpreter each run).",
+         "Lean 4 proof (list induction over lines/tags) + model/code correspondence", "DESIGN.md §4 C15")
+
 ALL = [f"C{i:02d}" for i in range(1, 19)]
 
 
